@@ -24,10 +24,10 @@ CHECKS = {
                 note=P_NOTE),
     'C06': dict(engine='tlc-unitcommit', technique='TLC enumeration of the unit-commitment automaton (EAOUnitCommit) + exhaustive 2^T pattern comparison against the real Plant/CHP MIP (HiGHS) + behaviour replay + TLC trace validation of optimised runs', cat='model_checking', ref='DESIGN.md 4 (C06)',
                 text='TLC enumerates every reachable on/off pattern with candidate outputs of the runtime/downtime automaton for all (min runtime, min downtime, initial state) tuples (invariants MinRunInv, MinDownInv, StartInv, OffZeroInv); every one of the 2^T patterns is pinned in the real Plant problem: feasible <=> reachable; strict behaviours are replayed (value incl. start/running costs, fuel drawn per step), near-misses of every guard (min_run, min_down, off_output, cap, ramp, start_flag_missing, heat_share) must be infeasible; optimised runs (SCIP, default solver) are validated step by step by Trace_EAOUnitCommit.',
-                note='Bounded: T<=6 quick / <=8 thorough, integer data, equal step lengths, consistent declared initial state, elapsed durations multiples of the step; start/shutdown ramp profiles in EAOUnitCommitRamp for plants that are off at the start (no heat profiles). Trusted: TLC, HiGHS (presolve off for MIP), SCIP.'),
+                note='Bounded: T<=6 quick / <=8 thorough, integer data, equal step lengths, consistent declared initial state, elapsed durations multiples of the step; start/shutdown ramp profiles in EAOUnitCommitRamp (plants off at the start or declared running, heat bounds of a CHP, profiles given in another frequency converted by the specification: ratios 2, 1/2, 3/2, 2/3; 3, 1/3 thorough); required durations up to two steps beyond the horizon. Trusted: TLC, HiGHS (presolve off for MIP), SCIP.'),
     'C03': dict(engine='tlc-eaosolve', technique='TLC decides, for every recorded optimize() call, whether the recorded response is an enabled action of the EAOSolve specification (feasibility by row class, value, optimality / infeasibility by lattice enumeration)', cat='model_checking', ref='DESIGN.md 4 (C03), 2.4',
                 text='Real OptimProblem.optimize calls on tiny integral programs (all four row classes, booleans with non-0/1 bounds, duplicated mapping rows, infeasible programs, split concatenation, relaxed solves with make_soft_problem, and HISTORIES of relaxed / exact calls on one problem object) with every installed solver are recorded; TLC enumerates the lattice of each program and checks that a reported solution satisfies bounds / rows by class / booleans, that value = -c.x, that no lattice point is better, and that a reported failure comes with an empty feasible set.',
-                note='Programs have integral polytopes (interval rows) or integer variables so lattice enumeration is exact; ortools/CPLEX not installed; trusted: TLC.'),
+                note='Programs have integral polytopes (interval rows) or integer variables so lattice enumeration is exact (fractional bounds only on boolean variables and only for exact solves); numerical conditioning (coefficients of extreme magnitude) is not decided; ortools/CPLEX not installed; trusted: TLC.'),
     'C01': dict(engine='tlc-eaomodel', technique=P_TECH + '; light TLA+ abstraction Trace_Portfolio for all asset types and routes', cat='model_checking', ref='DESIGN.md 4 (C01)',
                 text='Balance is a guard of Step and the invariant BalanceInv of the TLA+ model; balanced lattice schedules are replayed (accepted), every imbalance of exactly one unit at one node and step (also through the second row of transports / commodity factors) must be infeasible; the reported dispatch of optimised runs is validated step by step (Trace_EAOModel for the reference families incl. split; Trace_Portfolio -- flows and attachment only -- for a zoo of 16 portfolios over all asset types along the routes monolithic, split, io.optimize).',
                 note=P_NOTE + ' Structured assets are checked at their external nodes (as the statement says).'),
@@ -39,7 +39,7 @@ CHECKS = {
                 note='Per-asset problems are obtained through the public per-asset set-up with the same prices/grid; fixed point 1e-3; trusted: TLC.'),
     'C19': dict(engine='tlc-eaotime', technique='TLC enumeration of the EAOTime specification (all grid / window / coarse / interval-list calls, C19 clauses as invariants) + exact comparison of every specified result with the real Timegrid call', cat='model_checking', ref='DESIGN.md 4 (C19), 2.1',
                 text='EAOTime (absolute hour ticks, one-switch zones, fixed vs calendar frequencies, Restrict, Coarse, Assign) is enumerated over all (zone, frequency, start, end, main time unit) cases around the real CET switches of 2021, all restriction windows, coarse frequencies and interval lists; TLC checks Increasing, StartsAtStart, BeforeEnd, StepLenTrue, CumLenTrue, RestrictDef, CoarsePartition, AssignDef in every state and emits the expected result of each call; the real Timegrid / set_restricted_grid / values_to_grid / prices_to_grid is called with the same arguments and compared exactly (rationals).',
-                note='pandas calendar arithmetic trusted for ticks -> timestamps; non-existing / ambiguous local hours are not used as inputs; one zone (CET).'),
+                note='timestamped price points cast onto the grid (PricesToGrid: interpolation in absolute time, invariant PricesDef); pandas calendar arithmetic trusted for ticks -> timestamps; non-existing / ambiguous local hours are not used as inputs; one zone (CET).'),
     'C09': dict(engine='tlc-eaomodel', technique=P_TECH + '; symmetry of the specification by two TLC enumerations; realisation under permutations and adversarial renamings', cat='model_checking', ref='DESIGN.md 4 (C09)',
                 text='Specification level: for every configuration TLC enumerates it and a copy with permuted assets and renamed nodes; the behaviour sets must coincide up to the permutation. Binding: the SAME TLC output is replayed into realisations under permutations of the asset list and a catalogue of injective renamings of assets, nodes and structured wrappers (digit-only names of different lengths, names that are prefixes/suffixes of each other, names containing the separators "__", "_internal_", " ("); feasibility, values and per-asset cash flows must agree, optima must be equal, traces found by the new names are validated.',
                 note=P_NOTE),
@@ -48,7 +48,7 @@ CHECKS = {
                 note=P_NOTE),
     'C13': dict(engine='tlc-eaomodel', technique=P_TECH + '; coarse/periodic equalities as guards GroupChk/PeriodChk of the fine model', cat='model_checking', ref='DESIGN.md 4 (C13)',
                 text='The specification is the FINE model plus exactly the equalities (constant rate per coarse interval, same volume at the same position of every period within a duration; invariants GroupInv, PeriodInv); TLC enumerates all such schedules for every asset kind accepting the options (contract with one and two variables, transport, storage with one and two variables, multi-commodity); they are replayed into the coarse / periodic problem through the mapping rows (x_major from each minor step), non-constant schedules must not be representable, the optimum equals the lattice optimum of the constrained fine model, and the fine dispatch table of optimised runs is trace-validated.',
-                note=P_NOTE + ' Limits constant inside merged steps; coarse windows START on coarse boundaries (they may end inside a coarse step); wacc=0 for coarse assets.'),
+                note=P_NOTE + ' Limits constant inside merged steps; coarse windows may reach beyond the horizon on either side (first / last coarse step cut) and end inside a coarse step; take periods aligned with coarse steps; daily CET grids across the DST switches with asset frequency 2d; wacc=0 for coarse assets.'),
     'C16': dict(engine='tlc-eaomodel', technique=P_TECH + '; ScaledAsset / StructuredAsset as realisation routes of the same TLC output', cat='model_checking', ref='DESIGN.md 4 (C16)',
                 text='Scaled: the configuration states the asset AT scale s (capacities x s/norm, fixed cost s x rate per active tick as part of the step cost in EAOGuards); ScaledAsset(base, min=max=s) must accept exactly the TLC behaviours with equal per-asset value, near-misses rejected; free scale: optimum = best over the lattice of scales on families linear in the scale. Structured: wrapped (StructuredAsset incl. wrapper window clipping inner windows) and flat realisations conform to the same TLC behaviours, equal optimum.',
                 note=P_NOTE + ' Base assets without booleans.'),
@@ -57,10 +57,10 @@ CHECKS = {
                 note='"belonging to a step in the window" is read as any-row semantics; trusted: TLC, HiGHS for re-optimisation.'),
     'C18': dict(engine='tlc-eaomodel', technique='TLC lattice value function of EAOModel under unit injections (+1/-1 at every node and step) + TLC check of the supergradient inequalities (EAOPrices) on reported prices and real re-optimisations', cat='model_checking', ref='DESIGN.md 4 (C18)',
                 text='For LP families (composite, storage, transport, split) TLC computes the lattice optima V(0), V(+1), V(-1) of the configuration with a must-run unit contract at each (node, step); the nodal prices reported by extract_output for every solver returning duals must satisfy V(+1)-V(0) <= price <= V(0)-V(-1) (used where the lattice optimum equals the LP optimum, observed), and V(d) <= V(0)+price*d for real re-optimisations with the nodal right-hand side perturbed by d=+-1/4; all inequalities are evaluated by TLC (EAOPrices).',
-                note='LP only; prices compared only through the supergradient inequality (degenerate problems have many valid prices); trusted: TLC, HiGHS for re-optimisation.'),
+                note='LP only; split set-ups on DST grids judged by re-optimisation only; prices read from repeated reports on one result object; prices compared only through the supergradient inequality (degenerate problems have many valid prices); trusted: TLC, HiGHS for re-optimisation.'),
     'C17': dict(engine='tlc-eaoscenario', technique='TLC enumeration of EAOScenario (two-stage fork and robust valuation over the EAOGuards semantics) giving lattice values of SLP / wait-and-see / robust; compared with make_slp and the robust target of the real code together with the defining inequalities', cat='model_checking', ref='DESIGN.md 4 (C17), 2.5',
                 text='EAOScenario forks the state at the stage boundary (present moves common, one future per scenario, invariants PresentShared/PresentCommon) and, in robust mode, values one schedule under every scenario. TLC gives the lattice SLP optimum, per-scenario optima and best worst case. Binding: make_slp(...).optimize() lies between the expected value of fixing the present to each single-scenario solution (fix_time_window) and the mean of the per-scenario optima, equals the deterministic optimum for coinciding scenarios and the model SLP optimum on integral instances, present variables occur once in the extended problem; the robust solution is feasible, its worst case is >= that of every single-scenario solution, <= the smallest scenario optimum and >= the model best worst case.',
-                note='2-3 scenarios, T=3, boundary after first / before last step; scenarios share present prices; trusted: TLC, HiGHS.'),
+                note='2-3 scenarios, T=3 (T=4 with coarse steps straddling the boundary), boundary after first / before last step; scenarios share the prices of every step a present variable covers; trusted: TLC, HiGHS.'),
     'C10': dict(engine='tlc-eaohistory', technique='TLC exploration of the lifecycle model EAOHistory (labelled state graph) -> histories (all of length <= 2, one per transition via shortest path, random walks) executed on real objects, each returned problem compared with Fresh(call, arguments)', cat='model_checking', ref='DESIGN.md 4 (C10), 2.6',
                 text='EAOHistory models what the implementation keeps between calls (grid each asset points to, portfolio grid, whose window sits in the shared restricted grid, normal form of user dictionaries) with the public calls as actions (cost sampling for robust / stochastic optimisation, asset / portfolio set-up with and without grid, split set-up, optimise+output, save/load). TLC explores the graph (TypeOK, PortfolioOwnsGrid, FormMonotone); the harness executes the derived histories on real objects (contract with interval-dictionary limits and take period, storage, structured wrapper, market; grids with another horizon / zone) and compares every call with what brand-new objects return for the same arguments; the projected implementation state is compared with the model state as a diagnostic only.',
                 note='Depth 3; quick tier samples the depth-3 transitions; violation criterion is only the returned problem / an unexpected exception.'),
